@@ -96,11 +96,24 @@ func gzipBytes(b []byte) []byte {
 func statusBody(code int) string { return fmt.Sprintf("status %d\n", code) }
 
 // wire is the model's description of what reaches the client for this step:
-// <connects>:<status>:<framing>:<gzip>:<arrived>:<end>:<plain>:<gzipOk>. `body` is the resource (needed for gzip).
-func (st srvStep) wire(body []byte) string {
+// <connects>:<status>:<framing>:<gzip>:<arrived>:<end>:<plain>:<gzipOk>:<digestOk>. `body` is the resource (needed
+// for gzip); `tampered`: the server sends other bytes than the signed ones. digestOk: the bytes the client gets to
+// write are exactly the signed resource.
+func (st srvStep) wire(body []byte, tampered bool) string {
 	n := len(body)
 	w := func(status int, framing string, gz int, arrived int, end string, plain int, gzok int) string {
-		return fmt.Sprintf("1:%d:%s:%d:%d:%s:%d:%d", status, framing, gz, arrived, end, plain, gzok)
+		dg := 0
+		switch st.kind {
+		case "ok", "st302-ok", "len-short", "close-full", "chunked-full", "gzip-full":
+			if !tampered {
+				dg = 1
+			}
+		}
+		if (st.kind == "len-cut" || st.kind == "len-rst" || st.kind == "close-cut" || st.kind == "close-rst" || st.kind == "http10-cut" ||
+			st.kind == "chunked-term" || st.kind == "chunked-cut" || st.kind == "chunked-rst") && st.pos == n && !tampered {
+			dg = 1 // "cut" after the last byte
+		}
+		return fmt.Sprintf("1:%d:%s:%d:%d:%s:%d:%d:%d", status, framing, gz, arrived, end, plain, gzok, dg)
 	}
 	switch st.kind {
 	case "ok", "st302-ok":
@@ -134,7 +147,7 @@ func (st srvStep) wire(body []byte) string {
 		gz := gzipBytes(body)
 		return w(200, fmt.Sprintf("len%d", len(gz)), 1, len(gz)/2, "fin", gunzipPrefixLen(gz[:len(gz)/2]), 0)
 	case "refused":
-		return "0:0:close:0:0:fin:0:1"
+		return "0:0:close:0:0:fin:0:1:0"
 	}
 	code, _ := strconv.Atoi(st.kind[2:])
 	if code == 206 {
@@ -157,14 +170,14 @@ func gunzipPrefixLen(gz []byte) int {
 	return int(n)
 }
 
-func planWires(plan string, body []byte) (string, error) {
+func planWires(plan string, body []byte, tampered bool) (string, error) {
 	steps, err := parsePlan(plan, len(body))
 	if err != nil {
 		return "", err
 	}
 	var ws []string
 	for _, st := range steps {
-		ws = append(ws, st.wire(body))
+		ws = append(ws, st.wire(body, tampered))
 	}
 	return strings.Join(ws, ";"), nil
 }
